@@ -120,3 +120,40 @@ def _replay(model, contract):
 
 for _c in CONTRACTS.values():
     _c["replay_hook"] = _replay
+
+
+# ---- Parameter.set_fcn (C06): how a function cell becomes (a) the aggregation record the contracts above read -- [function, quantity,
+# interaction, weighting quantity] with blanks stripped -- or (b) for an ordinary function, the list of same-population dependencies: one entry
+# per name the parser reports, except the time variables `t` and `dt`.  parse_function is a ghost (under contract in function_parser.py).
+def _env_set_fcn(fcn, deps):
+    def make(it):
+        from pyvc.interp import PyObjV
+        from pyvc import source
+
+        mm = source.load("model")
+        pop = PyObjV("Population", mm, {"name": "pop"})
+        self = PyObjV("Parameter", mm, {"id": ("pop", "p"), "pop": pop, "fcn_str": None, "_fcn": None, "deps": {}, "pop_aggregation": None})
+        return {"self": self, "fcn_str": fcn, "DEPS": list(deps), "ASKED": []}
+
+    return make
+
+
+def _ghost_parse(it, s):
+    return ("compiled", s), list(it.live_env["DEPS"])
+
+
+def _ghost_get_variable(it, name):
+    it.live_env["ASKED"].append(name)
+    return ["object named " + name]
+
+
+for _tag, _fcn, _deps, _clause in (
+        ("weighted_aggregation", "SRC_POP_AVG(foi_out, w_ctc , alive)", ["foi_out", "w_ctc", "alive"], "self.pop_aggregation == ['SRC_POP_AVG', 'foi_out', 'w_ctc', 'alive'] and len(self.deps) == 0 and ASKED == []"),
+        ("plain_aggregation", "TGT_POP_SUM(x)", ["x"], "self.pop_aggregation == ['TGT_POP_SUM', 'x'] and len(self.deps) == 0 and ASKED == []"),
+        ("ordinary_function", "a + b * t / dt", ["a", "b", "t", "dt"], "self.pop_aggregation is None and sorted(self.deps.keys()) == ['a', 'b'] and self.deps['a'] == ['object named a'] and self.deps['b'] == ['object named b'] and ASKED == ['a', 'b']")):
+    CONTRACTS["model:Parameter.set_fcn#%s" % _tag] = dict(
+        schema=schema, make_env=_env_set_fcn(_fcn, _deps), class_module="model",
+        call_stubs={"parse_function": _ghost_parse, "self.pop.get_variable": _ghost_get_variable, "sc.isstring": (lambda it, x: isinstance(x, str))},
+        ensures=[("C06.the_function_cell_is_recorded_and_compiled", "self.fcn_str == %r and self._fcn == ('compiled', %r)" % (_fcn, _fcn)),
+                 ("C06.aggregation_record_or_same_population_dependencies", _clause)],
+        defined_props=["C06"])
